@@ -309,28 +309,31 @@ class SnmpSession(object):
         ):
             return
 
-        if self._deferred_user:
-            # First check runs engine id discovery
+        try:
+            if self._deferred_user:
+                # First check runs engine id discovery
+                if self._policer:
+                    self._policer.wait_sync()
+                self._sock.refresh()
+                # Set and localize actual keys
+                self._sock.set_keys(
+                    self._deferred_user.name,
+                    self._deferred_user.get_auth_alg(),
+                    self._deferred_user.get_auth_key(),
+                    self._deferred_user.get_priv_alg(),
+                    self._deferred_user.get_priv_key(),
+                )
+                # Adjust refresh settings
+                self._to_refresh = self._deferred_user.require_auth()
+                # Forget deferred user
+                self._deferred_user = None
+
+            # Refresh engine boots and time
             if self._policer:
                 self._policer.wait_sync()
             self._sock.refresh()
-            # Set and localize actual keys
-            self._sock.set_keys(
-                self._deferred_user.name,
-                self._deferred_user.get_auth_alg(),
-                self._deferred_user.get_auth_key(),
-                self._deferred_user.get_priv_alg(),
-                self._deferred_user.get_priv_key(),
-            )
-            # Adjust refresh settings
-            self._to_refresh = self._deferred_user.require_auth()
-            # Forget deferred user
-            self._deferred_user = None
-
-        # Refresh engine boots and time
-        if self._policer:
-            self._policer.wait_sync()
-        self._sock.refresh()
+        except BlockingIOError as e:
+            raise TimeoutError from e
 
     def get_engine_id(self: "SnmpSession") -> bytes:
         """
